@@ -32,8 +32,8 @@ func init() {
 		{4, (*G).tClosureCounter}, {4, (*G).tLoopClosures}, {4, (*G).tMultiAssign}, {4, (*G).tTable},
 		{5, (*G).tVarargFn}, {4, (*G).tGoto}, {6, (*G).tTypeError}, {5, (*G).tErrorValue}, {6, (*G).tMeta},
 		{3, (*G).tMethod}, {2, (*G).tTbc}, {3, (*G).tTruncExpand}, {2, (*G).tRecursion}, {2, (*G).tStringCoerce},
-		{2, (*G).tForEdge}, {2, (*G).tXpcall}, {2, (*G).tNestedProtect}, {2, (*G).tIndexChain}, {2, (*G).tSelect},
-		{0, (*G).tErrorSite}, {0, (*G).tPoolStress}, {5, (*G).tCoroutine},
+		{2, (*G).tForEdge}, {2, (*G).tXpcall}, {2, (*G).tNestedProtect}, {5, (*G).tIndexChain}, {2, (*G).tSelect},
+		{0, (*G).tErrorSite}, {0, (*G).tPoolStress}, {5, (*G).tCoroutine}, {0, (*G).tLongHistory},
 	}
 }
 
@@ -56,13 +56,6 @@ func (g *G) stmt() []*S {
 			ws[30] = 40 // tErrorSite
 			ws[32] = 10 // tCoroutine
 		}
-	}
-	if g.pool && g.depth < 3 {
-		ws[31] = 45 // tPoolStress
-		for _, i := range []int{8, 9, 11, 12, 15, 19, 23} { // function definitions and calls, closures, varargs, metamethods, recursion
-			ws[i] *= 3
-		}
-		ws[30] = 12
 	}
 	return templates[g.weighted(ws)].f(g)
 }
